@@ -14,6 +14,7 @@ import (
 
 	"github.com/nextmv-io/nextroute"
 	"github.com/nextmv-io/nextroute/factory"
+	"github.com/nextmv-io/nextroute/observers"
 	"github.com/nextmv-io/nextroute/schema"
 	"github.com/nextmv-io/sdk/run"
 )
@@ -44,7 +45,7 @@ func runSolve(b block) {
 		case "build":
 			resNames = fs[1:]
 		case "solve":
-			kv := map[string]int{"iterations": 50, "duration_ms": 2000, "runs": 1, "starts": 1, "det": 1, "repeat": 1, "snap": 0, "cancel_ms": -1, "jitter": 0, "slow_us": 0}
+			kv := map[string]int{"iterations": 50, "duration_ms": 2000, "runs": 1, "starts": 1, "det": 1, "repeat": 1, "snap": 0, "cancel_ms": -1, "jitter": 0, "slow_us": 0, "observer": 0}
 			for _, a := range fs[1:] {
 				p := strings.SplitN(a, "=", 2)
 				v, _ := strconv.Atoi(p[1])
@@ -72,6 +73,14 @@ func solveOnce(id string, input schema.Input, opts factory.Options, resNames []s
 	if kv["slow_us"] > 0 {
 		// a user constraint whose exact check is slow (and never violated): makes every executed move expensive
 		if err := model.AddConstraint(&slowCons{d: time.Duration(kv["slow_us"]) * time.Microsecond}); err != nil {
+			panic(err)
+		}
+	}
+	if kv["observer"] > 0 {
+		// the performance observer of observers/ (registered on the model, called by every run) and a user constraint with
+		// a solution-level check, so that every handler of the observer is exercised
+		model.AddSolutionObserver(observers.NewPerformanceObserver(model))
+		if err := model.AddConstraint(&solutionLevelCons{}); err != nil {
 			panic(err)
 		}
 	}
@@ -165,6 +174,15 @@ func solveOnce(id string, input schema.Input, opts factory.Options, resNames []s
 		}
 	}
 }
+
+// solutionLevelCons: a user constraint checked at solution level, never violated
+type solutionLevelCons struct{}
+
+func (c *solutionLevelCons) EstimateIsViolated(nextroute.Move) (bool, nextroute.StopPositionsHint) {
+	return false, nextroute.NoPositionsHint()
+}
+func (c *solutionLevelCons) String() string                                     { return "solution_level_check" }
+func (c *solutionLevelCons) DoesSolutionHaveViolations(nextroute.Solution) bool { return false }
 
 type slowCons struct{ d time.Duration }
 
